@@ -56,7 +56,7 @@ def exhaustive(quick):
 
 
 def check(ctx):
-    gens = [("timer", 300, 4000, timer_case), ("mixed", 100, 1500, mixed_case)]
+    gens = [("timer", 300, 25000, timer_case), ("mixed", 100, 10000, mixed_case)]
     rule = ("programs of 1-5 thread bodies (mark / wait d / thread / end, d in {0,0,125,250,500} ms) and mixed programs with "
             "waittill/notify, under random frame schedules (steps from {0,50,125,250,300,1000} ms) plus every duration "
             "assignment for 2-3 threads x 2 waits under fixed schedules; non-trivial = at least one marker printed; distinct by SHA-1")
